@@ -259,6 +259,16 @@ func checkC15(c c15Case) *ev.Failure {
 					return ev.Failf("skip/inverted", "%s %q: block %d matches=%v but Skip=%v", tag, text, num, perBlock, bi.Skip(num))
 				}
 			}
+			// "the index excludes every block" (a job then skips the whole segment) exactly when every block is skipped
+			allSkipped := true
+			for i := range c.Blocks {
+				if !bi.Skip(c.Base + uint64(i)) {
+					allSkipped = false
+				}
+			}
+			if bi.ExcludesAllBlocks() != allSkipped {
+				return ev.Failf("skip/excludes-all-blocks", "%s %q: ExcludesAllBlocks()=%v but Skip rejects every block of the segment: %v (selected %v)", tag, text, bi.ExcludesAllBlocks(), allSkipped, res.ToArray())
+			}
 			// nothing outside the segment is selected
 			if res.GetCardinality() > uint64(len(c.Blocks)) {
 				return ev.Failf("bitmap/selects-outside-segment", "%s %q: %d blocks selected in a segment of %d", tag, text, res.GetCardinality(), len(c.Blocks))
@@ -311,7 +321,7 @@ func classifyC15(c c15Case) (bool, []string) {
 }
 
 func TestC15Eval(t *testing.T) {
-	ev.Get("C15", "Evaluators").Rule = "rapid: expression ASTs (and / implicit and / or / parentheses, bare keys with operator characters inside, single- and double-quoted keys with spaces, parens, dashes) rendered with random spacing; key->block assignment over a segment of 1..64 blocks with empty blocks and keys present in no block; bitmap result contains b <=> per-block evaluation on b's own keys <=> the AST's meaning; Skip vs SkipFromKeys; two expressions over one bitmap map, repeated, leave every input bitmap unchanged; '-' operator rejected; non-trivial = or under and (or and under or) and a key absent from all blocks"
+	ev.Get("C15", "Evaluators").Rule = "rapid: expression ASTs (and / implicit and / or / parentheses, bare keys with operator characters inside, single- and double-quoted keys with spaces, parens, dashes) rendered with random spacing; key->block assignment over a segment of 1..64 blocks with empty blocks and keys present in no block; bitmap result contains b <=> per-block evaluation on b's own keys <=> the AST's meaning; Skip vs SkipFromKeys; ExcludesAllBlocks iff Skip rejects every block of the segment; two expressions over one bitmap map, repeated, leave every input bitmap unchanged; '-' operator rejected; non-trivial = or under and (or and under or) and a key absent from all blocks"
 	ev.Prop(t, "C15", "Evaluators", genC15, checkC15, classifyC15)
 }
 
